@@ -164,7 +164,9 @@ theorem arun_append (c : Client) (d : Device) (ops ops' : List AOp) :
 /-- the enable half of an acknowledged write keeps the invariants of an acknowledged history -/
 theorem ackState_wEn {ds : Bool} {dv0 : List Int} {c : Client} {d : Device} (h : AckState ds dv0 c d) :
     AckState ds dv0 (writeEnable c d .ack).1 (writeEnable c d .ack).2.1 := by
-  obtain ⟨e1, e2⟩ := writeEnable_ack h.inv h.dEn
+  by_cases hn : c.n = 0
+  · rw [writeEnable_zero h.inv hn .ack]; exact h
+  obtain ⟨e1, e2⟩ := writeEnable_ack h.inv hn h.dEn
   rw [e1, e2]
   have hi : Inv (enAck c) { d with en := c.enNew } := (h.inv.enAck).devEn c.enNew h.inv.lEnNew
   exact ⟨hi, fun _ => rfl, h.dDiv, rfl, h.sDiv, h.divS, h.dev⟩
@@ -173,7 +175,9 @@ theorem ackState_wEn {ds : Bool} {dv0 : List Int} {c : Client} {d : Device} (h :
 theorem ackState_wDiv {ds : Bool} {dv0 : List Int} {c : Client} {d : Device} (h : AckState ds dv0 c d)
     (hs : c.divSupported = true) :
     AckState ds dv0 (writeDiv c d .ack).1 (writeDiv c d .ack).2.1 := by
-  obtain ⟨e1, e2⟩ := writeDiv_ack h.inv h.dDiv
+  by_cases hn : c.n = 0
+  · rw [writeDiv_zero h.inv hn .ack]; exact h
+  obtain ⟨e1, e2⟩ := writeDiv_ack h.inv hn h.dDiv
   rw [e1, e2]
   have hi : Inv (divAck c) { d with div := c.divNew } := (h.inv.divAck).devDiv c.divNew h.inv.lDivNew
   refine ⟨hi, h.dEn, fun _ => rfl, h.sEn, rfl, h.divS, fun e => ?_⟩
@@ -222,14 +226,28 @@ theorem astep_write {c : Client} {d : Device} (hI : Inv c d) (a b : Outcome) :
     (arun c d (writeBlock c.divSupported a b)).1 = (step c d (.write a b)).1 ∧
     (arun c d (writeBlock c.divSupported a b)).2.1 = (step c d (.write a b)).2.1 := by
   show _ = (channelsWrite c d a b).1 ∧ _ = (channelsWrite c d a b).2.1
+  by_cases hn : c.n = 0
+  · -- no channels: the write does nothing; the blocks fail locally (no request can be built) and
+    -- leave client and device as they are
+    rw [channelsWrite_zero c d a b hn]
+    cases hs : c.divSupported with
+    | false =>
+      show (writeEnable c d b).1 = c ∧ (writeEnable c d b).2.1 = d
+      rw [writeEnable_zero hI hn b]; exact ⟨rfl, rfl⟩
+    | true =>
+      simp only [writeBlock, if_true, arun, astep, hs]
+      rw [writeDiv_zero hI hn a]
+      dsimp only
+      rw [writeEnable_zero hI hn b]
+      exact ⟨rfl, rfl⟩
   cases hs : c.divSupported with
   | false =>
-    rw [channelsWrite_nodiv c d a b hs]
+    rw [channelsWrite_nodiv c d a b hn hs]
     exact ⟨rfl, rfl⟩
   | true =>
-    obtain ⟨f, dv', -, -, -, heq⟩ := writeDiv_char hI a
+    obtain ⟨f, dv', -, -, -, heq⟩ := writeDiv_char hI hn a
     have hne : (writeDiv c d a).2.2.err = none := by rw [heq]
-    rw [channelsWrite_div_ok c d a b hs hne]
+    rw [channelsWrite_div_ok c d a b hn hs hne]
     simp only [writeBlock, if_true, arun, astep, hs]
     exact ⟨trivial, trivial⟩
 
@@ -261,6 +279,15 @@ def DivClosed : List AOp → Prop
 def EnSynced (c : Client) (d : Device) : Prop := d.en = c.enNew ∧ c.enNow = c.enNew ∧ c.copyEn = c.enNew
 def DivSynced (c : Client) (d : Device) : Prop := d.div = c.divNew ∧ c.divNow = c.divNew ∧ c.copyDiv = c.divNew
 
+/-- without channels everything is (vacuously) synchronised -/
+theorem enSynced_zero {c : Client} {d : Device} (hI : Inv c d) (h0 : c.n = 0) : EnSynced c d := by
+  obtain ⟨e1, e2, -, -, e5, -, e7, -⟩ := hI.nil h0
+  exact ⟨e5.trans e2.symm, e1.trans e2.symm, e7.trans e2.symm⟩
+
+theorem divSynced_zero {c : Client} {d : Device} (hI : Inv c d) (h0 : c.n = 0) : DivSynced c d := by
+  obtain ⟨-, -, e3, e4, -, e6, -, e8⟩ := hI.nil h0
+  exact ⟨e6.trans e4.symm, e3.trans e4.symm, e8.trans e4.symm⟩
+
 /-- steps that are not enable setters keep the enable part synchronised -/
 theorem enSynced_astep {ds : Bool} {dv0 : List Int} {c : Client} {d : Device} (hS : AckState ds dv0 c d)
     (h : EnSynced c d) (op : AOp) (ha : Acked op) (hn : isEnSetter op = false) :
@@ -285,15 +312,19 @@ theorem enSynced_astep {ds : Bool} {dv0 : List Int} {c : Client} {d : Device} (h
     cases hs : c.divSupported with
     | false => exact h
     | true =>
-      obtain ⟨e1, e2⟩ := writeDiv_ack hS.inv hS.dDiv
       show EnSynced (writeDiv c d .ack).1 (writeDiv c d .ack).2.1
+      by_cases h0 : c.n = 0
+      · rw [writeDiv_zero hS.inv h0 .ack]; exact h
+      obtain ⟨e1, e2⟩ := writeDiv_ack hS.inv h0 hS.dDiv
       rw [e1, e2]
       exact h
   | wEn o =>
     have ho : o = .ack := ha
     subst ho
-    obtain ⟨e1, e2⟩ := writeEnable_ack hS.inv hS.dEn
     show EnSynced (writeEnable c d .ack).1 (writeEnable c d .ack).2.1
+    by_cases h0 : c.n = 0
+    · rw [writeEnable_zero hS.inv h0 .ack]; exact h
+    obtain ⟨e1, e2⟩ := writeEnable_ack hS.inv h0 hS.dEn
     rw [e1, e2]
     exact ⟨rfl, rfl, rfl⟩
   | query => exact h
@@ -301,19 +332,23 @@ theorem enSynced_astep {ds : Bool} {dv0 : List Int} {c : Client} {d : Device} (h
 /-- an acknowledged enable half synchronises the enable part -/
 theorem wEn_synced {ds : Bool} {dv0 : List Int} {c : Client} {d : Device} (hS : AckState ds dv0 c d) :
     EnSynced (astep c d (.wEn .ack)).1 (astep c d (.wEn .ack)).2.1 := by
-  obtain ⟨e1, e2⟩ := writeEnable_ack hS.inv hS.dEn
   show EnSynced (writeEnable c d .ack).1 (writeEnable c d .ack).2.1
+  by_cases h0 : c.n = 0
+  · rw [writeEnable_zero hS.inv h0 .ack]; exact enSynced_zero hS.inv h0
+  obtain ⟨e1, e2⟩ := writeEnable_ack hS.inv h0 hS.dEn
   rw [e1, e2]
   exact ⟨rfl, rfl, rfl⟩
 
 theorem wDiv_synced {ds : Bool} {dv0 : List Int} {c : Client} {d : Device} (hS : AckState ds dv0 c d)
     (hs : c.divSupported = true) :
     DivSynced (astep c d (.wDiv .ack)).1 (astep c d (.wDiv .ack)).2.1 := by
-  obtain ⟨e1, e2⟩ := writeDiv_ack hS.inv hS.dDiv
   show DivSynced (if c.divSupported then writeDiv c d .ack else (c, d, {})).1
     (if c.divSupported then writeDiv c d .ack else (c, d, {})).2.1
   rw [hs]
   show DivSynced (writeDiv c d .ack).1 (writeDiv c d .ack).2.1
+  by_cases h0 : c.n = 0
+  · rw [writeDiv_zero hS.inv h0 .ack]; exact divSynced_zero hS.inv h0
+  obtain ⟨e1, e2⟩ := writeDiv_ack hS.inv h0 hS.dDiv
   rw [e1, e2]
   exact ⟨rfl, rfl, rfl⟩
 
@@ -336,8 +371,10 @@ theorem divSynced_astep {ds : Bool} {dv0 : List Int} {c : Client} {d : Device} (
   | wEn o =>
     have ho : o = .ack := ha
     subst ho
-    obtain ⟨e1, e2⟩ := writeEnable_ack hS.inv hS.dEn
     show DivSynced (writeEnable c d .ack).1 (writeEnable c d .ack).2.1
+    by_cases h0 : c.n = 0
+    · rw [writeEnable_zero hS.inv h0 .ack]; exact h
+    obtain ⟨e1, e2⟩ := writeEnable_ack hS.inv h0 hS.dEn
     rw [e1, e2]
     exact h
   | query => exact h
